@@ -11,10 +11,10 @@ trap 'rm -rf "$TMP"' EXIT
 ARGS=""
 for f in $(grep '^+++ b/' "$PATCH" | sed 's|^+++ b/||'); do
   mkdir -p "$TMP/$(dirname $f)"
-  if [ -f "/repo/$f" ]; then cp "/repo/$f" "$TMP/$f"; fi
+  if [ -f "${VERIF_REPO:-/repo}/$f" ]; then cp "${VERIF_REPO:-/repo}/$f" "$TMP/$f"; fi
 done
 (cd "$TMP" && patch -s -p1 < "$PATCH")
 for f in $(grep '^+++ b/' "$PATCH" | sed 's|^+++ b/||'); do
-  ARGS="$ARGS --overlay /repo/$f=$TMP/$f"
+  ARGS="$ARGS --overlay ${VERIF_REPO:-/repo}/$f=$TMP/$f"
 done
-VERIF_NO_REPLAY=1 VERIF_ROOT="$ROOT" "$ROOT/bin/govc" check --property "$PROP" --evidence "$TMP/evidence.json" --replays "$TMP/replays" $ARGS "$@"
+VERIF_NO_REPLAY=1 VERIF_ROOT="$ROOT" "$ROOT/bin/govc" check --repo "${VERIF_REPO:-/repo}" --property "$PROP" --evidence "$TMP/evidence.json" --replays "$TMP/replays" $ARGS "$@"
